@@ -10,6 +10,7 @@ pub mod c06;
 pub mod c13;
 pub mod c14;
 pub mod c07;
+pub mod c08;
 pub mod c03;
 pub mod c09;
 pub mod c11;
@@ -27,6 +28,7 @@ pub fn run(prop: &str, ctx: &mut Ctx) -> Option<Report> {
         "C13" => Some(c13::run(ctx)),
         "C14" => Some(c14::run(ctx)),
         "C07" => Some(c07::run(ctx)),
+        "C08" => Some(c08::run(ctx)),
         "C03" => Some(c03::run(ctx)),
         "C09" => Some(c09::run(ctx)),
         "C11" => Some(c11::run(ctx)),
